@@ -1329,7 +1329,7 @@ _ADAPT = [
     (r"Result::<T, E>::map$", "res", 1, {"Ok": ("wrap", RES, 0, "Ok", "call"), "Err": ("wrap", RES, 1, "Err", "payload")}),
     (r"Result::<T, E>::map_err$", "res", 1, {"Ok": ("wrap", RES, 0, "Ok", "payload"), "Err": ("wrap", RES, 1, "Err", "call")}),
     (r"Result::<T, E>::and_then$", "res", 1, {"Ok": ("call",), "Err": ("wrap", RES, 1, "Err", "payload")}),
-    (r"bool::then$", "bool", 1, {"false": ("wrap", OPT, 0, "None", "none"), "true": ("wrap", OPT, 1, "Some", "call0")}),
+    (r"<impl bool>::then$|bool::then$", "bool", 1, {"false": ("wrap", OPT, 0, "None", "none"), "true": ("wrap", OPT, 1, "Some", "call0")}),
 ]
 
 
